@@ -66,6 +66,46 @@ def history_in_child(case):
         return {'ctor_exc': 'history child failed: %s' % type(exc).__name__}
 
 
+def squash_cycle_collapse(rec):
+    """True iff some fine node of the returned molecule is the copy of two DIFFERENT template atoms of one coarse node AND
+    the input demands it: in the bonded graph (before squash_atoms) the two copies are connected by a path of '!' bonds only.
+    (A merge of two atoms that are joined by anything else than squash operators is left to the oracle: clause 4.)"""
+    if not rec.get('mol') or not rec.get('m2'):
+        return False
+    pairs = []
+    for _, attrs, _ in rec['mol']:
+        a = {k: RS.dec_val(v) for k, v in attrs}
+        fid, mp = a.get('fragid'), a.get('mapping')
+        if not isinstance(fid, list) or not isinstance(mp, list):
+            continue
+        seen = {}
+        for k, m in zip(fid, mp):
+            m = tuple(m) if isinstance(m, (list, tuple)) else (m,)
+            if len(m) != 2:
+                continue
+            if (k, m[0]) in seen and seen[(k, m[0])] != m[1]:
+                pairs.append((k, m[0], seen[(k, m[0])], m[1]))
+            seen.setdefault((k, m[0]), m[1])
+    if not pairs:
+        return False
+    import networkx as nx
+    G = RS.dec_graph(rec['m2'])
+    B = nx.Graph()
+    B.add_nodes_from(G.nodes)
+    for u, v, b in G.edges(data='bonding'):
+        if b and str(b[0]).startswith('!'):
+            B.add_edge(u, v)
+
+    def copy_of(k, F, t):
+        hits = [n for n, d in G.nodes(data=True) if d.get('fragid') == [k] and [tuple(x) for x in (d.get('mapping') or [])] == [(F, t)]]
+        return hits[0] if len(hits) == 1 else None
+    for k, F, t1, t2 in pairs:
+        x, y = copy_of(k, F, t1), copy_of(k, F, t2)
+        if x is None or y is None or not nx.has_path(B, x, y):
+            return False
+    return True
+
+
 class C02(RS.StepProp):
     id = 'C02'
     level = 'proof'
@@ -111,6 +151,11 @@ class C02(RS.StepProp):
                 ('{[#A][#B][#A]}.{#A=[!][#X][#Y][!],#B=[!][#Y][#X][!]}.{#X=[!]OC[!],#Y=[!]CC[!]}', True),
                 ('{[#A][#B]}.{#A=[#X][#Y][!],#B=[!][#Y][#Z]}.{#X=[#P][#Q][!],#Y=[!][#Q][#R][!],#Z=[!][#R][#S]}', False),
                 ('{[#A][#B]}.{#A=[#X][#Y][$],#B=[$][#X]}.{#X=[$]CC[$],#Y=[$]O[$]}', True),
+                # explicitly written hydrogens that carry their own annotation with a value that reads as "false"
+                # (weight 0 / 0.0) on parents of non-zero weight: the copy keeps the fragment's value (seed C02-8)
+                ('{[#A][#B]}.{#A=C[H;w=0][$],#B=[$]O[H;0]}', True),
+                ('{[#A][#B]}.{#A=[C;w=2.0]([H;w=0])[$],#B=[$][C;2.5]([H;w=0.0])C}', True),
+                ('{[#A]}.{#A=[H;w=0]C[H]}', True),
                 ('{[#A][#B]}.{#A=[#X][#Y][$],#B=[$][#X]}.{#X=[$][#P][#Q][$],#Y=[$][#R][$]}.{#P=C[$],#Q=[$]C[$],#R=[$]N[$]}', True)]
         out = []
         for s, laa in strs:
@@ -183,6 +228,11 @@ class C02(RS.StepProp):
                                           got['recs'][case['level']]['skip'])
             return {'skip': why, '_k': self.put_term([], 'C02Check.KStep ' + RS.TRIVIAL_STEP)}
         rec = got['recs'][case['level']]
+        if squash_cycle_collapse(rec):
+            # degenerate INPUT, not judged: a cycle of squash operators makes two atoms of ONE fragment copy the same atom
+            # (e.g. a two-atom fragment whose both atoms are shared with neighbours that are shared with each other)
+            return {'skip': 'squash operators of the input merge two atoms of one fragment copy',
+                    '_k': self.put_term([], 'C02Check.KStep ' + RS.TRIVIAL_STEP)}
         tab = self.new_tab()
         impl = RS.rec_summary(rec)
         impl['class'] = RS.py_virtual_not_last(rec)
